@@ -289,7 +289,7 @@ static void run_cfg(vh::Trace& tr, Cfg c, const std::string& name, long budget, 
 }
 
 // Generic geometry: the crystal map lists detectors on a circle (psi = 2 pi d / N from the -y axis, ring r at
-// z = r * spacing), i.e. the environment is the cylindrical lay-out handed over as a detector map.
+// z = (r - (R-1)/2) * spacing), i.e. the environment is the cylindrical lay-out handed over as a detector map.
 static shared_ptr<Scanner> make_generic(int N, int R, const std::string& dir, float radius, float spacing) {
   const std::string fn = dir + "/c12_map_" + std::to_string(N) + "_" + std::to_string(R) + ".csv";
   std::ofstream f(fn);
@@ -297,7 +297,7 @@ static shared_ptr<Scanner> make_generic(int N, int R, const std::string& dir, fl
   for (int r = 0; r < R; ++r)
     for (int d = 0; d < N; ++d) {
       const double psi = 2 * PI * d / N;
-      f << r << "," << d << "," << radius * std::sin(psi) << "," << -radius * std::cos(psi) << "," << r * spacing << "\n";
+      f << r << "," << d << "," << radius * std::sin(psi) << "," << -radius * std::cos(psi) << "," << (r - (R - 1) / 2.0) * spacing << "\n";
     }
   f.close();
   shared_ptr<Scanner> sc(new Scanner(Scanner::User_defined_scanner, "tinygeneric", N, R, N - 1, N - 1, radius, 0.F, spacing, 3.F, 0.F,
@@ -326,7 +326,8 @@ static void arc_rows(vh::Trace& tr, const std::string& name, shared_ptr<Scanner>
   const double uE = PI / (2.0 * N);
   for (int tp = t0; tp <= t1 + 1; ++tp) {
     LORInAxialAndNoArcCorrSinogramCoordinates<float> la, lb;
-    in.get_LOR(la, Bin(0, 0, 0, tp - 1)); in.get_LOR(lb, Bin(0, 0, 0, tp));
+    const int vmid = in.get_num_views() / 2;      // a view whose azimuthal angle (incl. tilt) is well inside (0, pi)
+    in.get_LOR(la, Bin(0, vmid, 0, tp - 1)); in.get_LOR(lb, Bin(0, vmid, 0, tp));
     const float be = (la.beta() + lb.beta()) / 2;
     LORInAxialAndNoArcCorrSinogramCoordinates<float> le(0.F, 0.F, 0.F, be, la.radius());
     eb.add(quant(be, uE));
@@ -334,7 +335,7 @@ static void arc_rows(vh::Trace& tr, const std::string& name, shared_ptr<Scanner>
   }
   vh::Json jc("ArcConfig");
   jc.num("id", ++cfg_id).str("name", name).num("N", N).num("variant", variant).num("t0", t0).num("t1", t1).num("o0", o0).num("o1", o1)
-      .num("dout12", vh::fx(out.get_tangential_sampling(), 12)).num("sampling_s12", vh::fx(out.get_sampling_in_s(Bin(0, 0, 0, 0)), 12));
+      .num("dout12", vh::fx(out.get_tangential_sampling(), 12)).num("dout16", vh::fx(out.get_tangential_sampling(), 16)).num("sampling_s12", vh::fx(out.get_sampling_in_s(Bin(0, 0, 0, 0)), 12));
   put(jc, "eb", eb); jc.arr("es", es);
   tr.emit(jc);
   // rows are the views of one sinogram (public API: Sinogram -> Sinogram)
